@@ -33,7 +33,10 @@ Definition oapp {A} (x y : option (list A)) : option (list A) :=
 Definition named_ent (e : option tens) : option (list (string * list expr)) :=
   match e with None => Some [("ent", [])] | Some t => named "ent" t end.
 
-Definition run_scenario (sc : scenario) (sp : space) (squash masked : bool) (B : nat)
+(* [hit]: whether the stored action tensor happens to be bit-identical to tanh of the draw of the forward pass that
+   precedes its re-evaluation (saturated tanh: both are exactly +-1).  torch.equal is a test on VALUES, so its outcome is
+   an input of the model, like the draws: with [hit] the stored tensor IS tanh(sampled2). *)
+Definition run_scenario (sc : scenario) (sp : space) (squash masked : bool) (B : nat) (hit : bool)
   : option (list (string * list expr)) :=
   let ac := actor_init sp squash in
   let lg1 := var_t2 "logit" B (flatdim sp) in
@@ -42,7 +45,8 @@ Definition run_scenario (sc : scenario) (sp : space) (squash masked : bool) (B :
   let m2 := opt_mask masked "mask2" sp B in
   let d1 := var_draws "sampled" sp B in
   let d2 := var_draws "sampled2" sp B in
-  let stored := var_action "action" sp B in
+  let stored := if hit then match d2 with DrOne t => tmap Tanh t | DrMany _ => var_action "action" sp B end
+                else var_action "action" sp B in
   match sc with
   | ScFresh =>
       match actor_forward ac lg1 m1 d1 with
